@@ -377,6 +377,51 @@ func runLinked(c *vlib.Ctx, i int, r *vlib.Rand) {
 			p = vlib.Catch(func() { s.t.l.Clear() })
 			s.t.m = nil
 			c.SetAdd("linked_ops", "Clear")
+		case op < 90: // an invalid argument (a nil node) is reported; the list is as it was and usable
+			which := r.Intn(3)
+			name := []string{"PutBefore", "Remove", "GetNext"}[which]
+			if tooManyLeaks("LinkedList", name) {
+				continue
+			}
+			s.logf("K%d.%s(nil node)", id, name)
+			l := s.t.l
+			v := fresh()
+			pe := vlib.Catch(func() {
+				switch which {
+				case 0:
+					l.PutBefore(v, nil)
+				case 1:
+					l.Remove(nil)
+				default:
+					l.GetNext(nil)
+				}
+			})
+			c.SetAdd("linked_ops", name+"(nil)")
+			if pe == nil {
+				// accepted: what the list holds now is not stated anywhere; the program ends here
+				c.Count("linked_nil_node_accepted", 1)
+				s.dead = true
+				break
+			}
+			c.Count("linked_error_reports", 1)
+			sz := -1
+			ok, pv := followUp(c, "LinkedList", name, fmt.Sprintf("K%d.Size()", id), func() { sz = l.Size() }, func() map[string]interface{} {
+				return map[string]interface{}{"list": fmt.Sprintf("K%d", id), "ops": s.ops, "model": fmt.Sprint(s.t.m)}
+			})
+			if !ok {
+				s.dead = true // every other method of this list takes the same mutex
+				break
+			}
+			if pv != nil || sz != n {
+				s.fail(name, "wrong-size", fmt.Sprintf("after %s(nil node) reported an error, Size() gave %d (panic: %v); the list has %d elements", name, sz, pv, n))
+				s.dead = true
+				break
+			}
+			if !s.verifyAll(name, true, "") {
+				s.dead = true
+			}
+			c.Count("linked_op_count", 1)
+			continue
 		default:
 			s.logf("K%d.ToArray()", id)
 			if !s.verify("ToArray", true) {
